@@ -53,14 +53,18 @@ ASSUMPTIONS = ['the PSF model classes themselves are judged by C13 and make_mode
                'required to be the same function when rendering and when fitting',
                'astropy TRFLSQFitter / scipy least_squares converge on noise-free data from starts within 0.7 px '
                '(calibrated: see max_deviation)',
+               'a recovery failure is attributed to photutils only when an independent fit of the same group (own fit '
+               'windows and ordering, same astropy TRFLSQFitter, numerical Jacobian, same start) does recover the truth; '
+               'otherwise the optimiser left its basin and the case is counted under notes.recovery_undecided_* '
+               '(3 of 17123 thorough scenes)',
                'astropy Table/QTable semantics (group_by, join) are trusted',
                'DAOStarFinder (class finder) is judged by C14; cases where it does not return one detection within '
                '1 px of every true source are skipped (precondition of the property)']
 
-# recovery tolerances. Measured on the unchanged tree over 8500 scenes (thorough tier, seed 0): isolated fits
-# |dx|,|dy| <= 2.5e-9 px, flux 1.9e-8, free shape 3e-9, residual 1.9e-8 of the peak; group fits 2.9e-7 px, 4.5e-7,
-# 2.2e-7, 4.5e-8 (worst: CircularGaussianPSF with free fwhm); image x k: isolated 1.9e-6 px / 2.4e-7, groups 6e-5 px /
-# 2e-6. A mis-assigned group member is off by >= 1.2 FWHM (> 2.4 px) and by the flux ratio.
+# recovery tolerances. Measured on the unchanged tree over 17123 scenes (thorough tier, seed 0): isolated fits
+# |dx|,|dy| <= 3.6e-9 px, flux 1.9e-8, free shape 1.6e-8, residual 1.9e-8 of the peak; group fits 3.3e-7 px, 4.5e-7,
+# 2.2e-7, 4.5e-8 (worst: CircularGaussianPSF with free fwhm); image x k: isolated 2.9e-6 px / 3.4e-7, groups 6.2e-5 px /
+# 2.1e-6. A mis-assigned group member is off by >= 1.2 FWHM (> 2.4 px) and by the flux ratio.
 TOL_ISO = dict(pos=1e-4, flux=1e-5, resid=1e-6, shape=1e-4)
 TOL_GRP = dict(pos=1e-2, flux=1e-2, resid=1e-3, shape=1e-2)
 
